@@ -32,6 +32,13 @@ func c07Scenarios(thorough bool) []ConcScenario {
 				Plans: []TunnelPlan{c07Plan(kinds[0], "A", 1, ends[0]), c07Plan(kinds[1], "B", 2, ends[1])}})
 		}
 	}
+	// connections that deliver one write per read: some buffer-sharing interleavings exist only this way
+	seg := ConcScenario{Name: "two-legacy+legacy-segmented", Deviation: true, Segmented: true, RoundRobin: true, Plans: []TunnelPlan{c07Plan("legacy", "A", 1, "drop"), c07Plan("legacy", "B", 2, "drop")}}
+	for i := range seg.Plans {
+		id := []string{"A", "B"}[i]
+		seg.Plans[i].Script = []string{"data:[" + id + "-client-1]", "data:[" + id + "-client-2]", "data:[" + id + "-client-3]", "recvbytes:34", "drop"}
+	}
+	out = append(out, seg)
 	if thorough {
 		out = append(out, ConcScenario{Name: "three-ws+legacy+ws", Deviation: true,
 			Plans: []TunnelPlan{c07Plan("ws", "A", 1, "close"), c07Plan("legacy", "B", 2, "close"), c07Plan("ws", "C", 3, "drop")}})
